@@ -2,6 +2,7 @@
    For every n, every well-formed table (symbolic) and every index < n, in all three storage regimes.
    Statements only; proofs are in Proofs/Transforms.v (kernels) and Proofs/ApiTransforms.v (API layer). *)
 From Coq Require Import List NArith Bool.
+From V Require Proofs.ExprsTie3.  (* whole-word regimes, fill_symmetric, text widths: regenerated from the Rust source, equal the model's *)
 From V Require Proofs.ExprsTie.   (* the kernels' word-level expressions, regenerated from the Rust source, equal the model's *)
 From V Require Import Base.Res Model.Kernels Model.Api Spec.Bfun Proofs.Transforms Proofs.ApiTransforms.
 Import ListNotations.
